@@ -20,8 +20,8 @@ def binding(i, chi):
     })
 
 
-def emission(ctx, key, args, vec_index):
-    v = Vec()
+def emission(ctx, key, args, vec_index, initial=None):
+    v = Vec(list(initial)) if initial else Vec()
     a = list(args)
     a.insert(vec_index, v)
     _, outs = backend.fold(ctx, key, a)
@@ -220,6 +220,87 @@ def rule_abi(b):
                             deltas = [e for e in m.written_regs if e == sp]
                         if pr:
                             bad.append((k, pat, ap, pr, codes))
+        # two prints in a row (the second sequence is generated onto the instructions of the first: a generator that looks back at
+        # what was emitted before - to merge the save / restore of neighbouring prints, say - is judged on the merged sequence)
+        n_pairs = 0
+        bad2 = []
+        # the statement-level generator announces every statement with a comment before it calls the print sequence generator
+        ann = None
+        try:
+            _, couts = backend.fold(ctx, tg.method("comment"), ["println_i64 v;"])
+            couts = [o for o in couts if not getattr(o, "diverged", None)]
+            ann = couts[0].result if len(couts) == 1 else None
+        except (AnalysisError, KeyError):
+            ann = None
+        if ann is None:
+            raise AnalysisError("R-ABI: the comment instruction of the %s backend could not be built" % b)
+        for k in range(1, 21):
+            pats = [tuple("Ext" for _ in range(min(k, half))), tuple("Prd" for _ in range(min(k, half)))]
+            pats += [tuple(("Ext", "Prd")[i % 2] for i in range(min(k, half)))] if k > 1 else []
+            for pat in dict.fromkeys(pats):
+                ctxv = Vec([binding(i, pat[i] if i < len(pat) else "Ext") for i in range(k)])
+                pos2 = sorted({0, 1, 2, 3, k // 2, k - 1} & set(range(k)))
+                for ap1, ap2 in [(k - 1, a2) for a2 in pos2] + [(0, k - 1)]:
+                    src1, src2 = temporary_at(tg, 2 * ap1 + 1), temporary_at(tg, 2 * ap2 + 1)
+                    c1 = emission(ctx, pkey, [False, src1, ctxv], 3, initial=[ann])
+                    if c1 is None:
+                        continue        # reported by the single-print class
+                    codes = emission(ctx, pkey, [True, src2, ctxv], 3, initial=list(c1) + [ann])
+                    n_pairs += 1
+                    if codes is None:
+                        bad2.append((k, pat, ap1, ap2, ["the print sequence generator panics when it follows another print"], []))
+                        continue
+                    m = isa.Machine(arch)
+                    init, live = {}, []
+                    for pos in range(2 * k):
+                        chi = pat[pos // 2] if pos // 2 < len(pat) else "Ext"
+                        if chi == "Ext" and pos % 2 == 0:
+                            continue
+                        loc = tg.loc_of(temporary_at(tg, pos))
+                        v = isa.var("live:%d" % pos)
+                        init[loc] = v
+                        live.append(loc)
+                        if loc[0] == "reg":
+                            m.regs[loc[1]] = v
+                        else:
+                            m.mem[loc[1]] = v
+                    for r in (heap, free):
+                        init[("reg", r)] = isa.var("keep:" + r)
+                        m.regs[r] = init[("reg", r)]
+                    isa.run(ctx, arch, codes, m)
+                    pr = list(m.errors)
+                    calls = [e for e in m.events if e[0] == "call"]
+                    if len(calls) != 2:
+                        pr.append("%d calls emitted for two prints" % len(calls))
+                    else:
+                        for (_, sym, spv, argv), want_sym, src in zip(calls, ("print_i64", "println_i64"), (src1, src2)):
+                            if sym != want_sym:
+                                pr.append("calls %r instead of %s" % (sym, want_sym))
+                            a0 = list(argv.values())[0]
+                            if a0 != init.get(tg.loc_of(src)):
+                                pr.append("%s: first argument register holds %s, not the printed variable" % (want_sym, isa.show(a0)))
+                            if spv[0] != "addr":
+                                pr.append("stack pointer at the call is not entry-relative")
+                            else:
+                                entry_res = 8 if arch == "x86_64" else 0
+                                if (entry_res + setup_delta + spv[2]) % 16 != 0:
+                                    pr.append("stack pointer at the call of %s is entry%+d: not 16-byte aligned" % (want_sym, setup_delta + spv[2]))
+                    if m.r(sp) != ("addr", "sp0", 0):
+                        pr.append("stack pointer after the two sequences is %s" % isa.show(m.r(sp)))
+                    for loc in live + [("reg", heap), ("reg", free)]:
+                        if _read_loc(m, loc) != init[loc]:
+                            pr.append("%s does not survive the two calls (now %s)" % (loc[1] if loc[0] == "reg" else "slot%+d" % loc[1][1], isa.show(_read_loc(m, loc))))
+                    if pr:
+                        bad2.append((k, pat, ap1, ap2, pr, codes))
+        ikey2 = "%s:print_i64;print_i64" % b
+        if bad2:
+            k, pat, ap1, ap2, pr, codes = bad2[0]
+            res.inst(ikey2, f["sp"]["file"], f["sp"]["line"], "violation", "%d of %d cases wrong" % (len(bad2), n_pairs))
+            res.violate(ikey2, "two prints in a row with %d live variables (chirality %s, printed variables at positions %d and %d): %s [%d of %d cases wrong]" %
+                        (k, "".join(c[0] for c in pat), ap1, ap2, "; ".join(pr[:3]), len(bad2), n_pairs), f["sp"]["file"], f["sp"]["line"],
+                        {"emitted": [repr(c) for c in codes][:80]})
+        else:
+            res.inst(ikey2, f["sp"]["file"], f["sp"]["line"], "ok", "%d (size, chirality pattern, argument positions) pairs of prints" % n_pairs)
         ikey = "%s:print_i64" % b
         if bad:
             k, pat, ap, pr, codes = bad[0]
